@@ -184,7 +184,7 @@ class World:
     """state of the scripted native layer for ONE call of a Process method"""
 
     def __init__(self, emu, pid=42, fault_at=None, err=None, state="alive", pid0_listed=True,
-                 sticky=False, fault2_at=None, err2=None, overrides=None):
+                 sticky=False, fault2_at=None, err2=None, overrides=None, zcode=None):
         self.emu = emu
         self.pid = pid
         self.fault_at = fault_at          # index in the native-call sequence, or None
@@ -192,6 +192,7 @@ class World:
         self.fault2_at = fault2_at        # a second, later index (two-fault sequences), or None
         self.err2 = err2
         self.overrides = overrides or {}  # native name -> script(world, *args) for this one case
+        self.zcode = zcode                # native status-code NAME the record holds when state == "zombie" (default SZOMB)
         self.state = state                # seen by the probe primitives AFTER the fault fired
         self.pid0_listed = pid0_listed
         self.sticky = sticky              # the faulted *function* keeps failing afterwards
@@ -291,7 +292,7 @@ def scripts_for(emu):
                 raise _gone_err(w)
             r = list(rec("oneshot", 25))
             kmap = emu.mod.kinfo_proc_map
-            r[kmap["status"]] = const("SZOMB") if st == "zombie" else const("SRUN")
+            r[kmap["status"]] = const(w.zcode or "SZOMB") if st == "zombie" else const("SRUN")
             r[kmap["ttynr"]] = TTY_NR
             r[kmap["name"]] = "c20proc"
             return tuple(r)
@@ -329,7 +330,7 @@ def scripts_for(emu):
                 raise _gone_err(w)
             r = list(rec("kinfo", 11))
             kmap = emu.mod.kinfo_proc_map
-            r[kmap["status"]] = const("SZOMB") if st == "zombie" else const("SRUN")
+            r[kmap["status"]] = const(w.zcode or "SZOMB") if st == "zombie" else const("SRUN")
             r[kmap["ttynr"]] = TTY_NR
             r[kmap["name"]] = "c20proc"
             return tuple(r)
@@ -352,7 +353,7 @@ def scripts_for(emu):
         def basic(w, pid, *a):
             r = list(rec("basic", n_basic))
             m = emu.mod.proc_info_map
-            r[m["status"]] = const("SZOMB") if w.cur_state() == "zombie" else const("SRUN" if ident == "sunos" else "SACTIVE")
+            r[m["status"]] = const(w.zcode or "SZOMB") if w.cur_state() == "zombie" else const("SRUN" if ident == "sunos" else "SACTIVE")
             r[m["ttynr"]] = TTY_NR
             return tuple(r)
         S["proc_basic_info"] = basic
@@ -749,11 +750,11 @@ class Emu:
         return ()
 
     def run(self, meth, pid=42, fault_at=None, err=None, state="alive", pid0_listed=True,
-            name="c20cached", ppid=7, sticky=False, args=None, fault2_at=None, err2=None):
+            name="c20cached", ppid=7, sticky=False, args=None, fault2_at=None, err2=None, zcode=None):
         """Call the platform module's Process(pid).<meth>() over a scripted world.
         Returns (observable, trace). Every exception is an observable."""
         self.clear_caches()
-        w = World(self, pid, fault_at, err, state, pid0_listed, sticky, fault2_at, err2)
+        w = World(self, pid, fault_at, err, state, pid0_listed, sticky, fault2_at, err2, zcode=zcode)
         self.world = w
         self.in_terminal = meth == "terminal"
         try:
